@@ -116,6 +116,10 @@ def replay(payload):
         os.environ.pop("SIMKIT_RAW_REPLAY", None)
         print("replayed: %s %s" % (st, json.dumps(r)[:500] if r is not None else None))
         return st == "crash" or (st == "ok" and r is not None)
+    if prop == "C39" and payload.get("family") == "E3b":
+        from . import e3_async
+        cell = [c for c in C39_CELLS if c["cell"] == payload["cell"]][0]
+        return e3_async.replay(dict(payload, cflags=list(cell.get("cflags", ())), directives=cell.get("directives")))
     if prop == "C39" and payload.get("family") == "E11":
         from . import e11_pyx
         cell = [c for c in C39_CELLS if c["cell"] == payload["cell"]][0]
@@ -236,6 +240,7 @@ def _c36_prebuild(seed, tier):
             lambda: e6_loops.build_mods([{"cell": "asan", "cflags": ASAN_CFLAGS}], tag=""),
             lambda: e8_omp.build_module(ASAN_CFLAGS, ("-fsanitize=address,undefined",), name="wl37asan"),
             lambda: __import__("simkit.e11_pyx", fromlist=["x"]).build_modules(seed, 2 if tier == "quick" else 6, 12, "asan", ASAN_CFLAGS),
+            lambda: __import__("simkit.e3_async", fromlist=["x"]).build_modules(seed, 2 if tier == "quick" else 6, "asan", ASAN_CFLAGS),
             _selftest_build,
             lambda: __import__("simkit.rider_corpus", fromlist=["x"]).build_cell("asan", ASAN_CFLAGS)]
     with ThreadPoolExecutor(max_workers=len(jobs)) as ex:
@@ -359,6 +364,15 @@ def check_C36(tier):
         else:
             r.pop("violation", None)
             rep.absorb(r)
+    # E3b: coroutines / async generators under the real asyncio Task machinery on the virtual-time loop (cancellation schedules)
+    from . import e3_async
+    violb, modsb, cfgb = e3_async.explore(rep, prop, seed, tier, "asan", cflags=ASAN_CFLAGS, budget=budget * 0.1, nmods=2 if tier == "quick" else 6,
+                                          nruns=96 if tier == "quick" else None)
+    for i, v in violb:
+        if v["klass"] == "crash":
+            if v.get("scenario") is None:
+                v = dict(v, scenario=e3_async.recover_crash(seed, i, cfgb, modsb, prop))
+            note("E3b", i, v, None)
     # E11 typed .pyx family (cdef functions / classes, typed conversions, nogil helpers) under fault plans
     from . import e11_pyx
     viol11, mods11, cfg11, _ = e11_pyx.explore(rep, prop, seed, tier, "asan", None, cflags=ASAN_CFLAGS, budget=budget * 0.12, nmods=2 if tier == "quick" else 6)
@@ -439,7 +453,7 @@ def check_C39(tier):
     prop = "C39"
     seed = core.env_seed()
     core.stage()
-    from . import e5_refs, e6_loops
+    from . import e5_refs, e6_loops, e3_async
     rep = core.Report(prop, "rider:E3-E6 under build-configuration cells", tier, seed)
     rep.rule = ("the seeded workloads, histories and fault plans of E3 (generators), E4 (exception nests), E5 (refcount fault sweep) and E6 (loops) rebuilt in seeded cells of the "
                 "build matrix {C++, -O2/-O3, CYTHON_USE_PYLONG_INTERNALS=0, CYTHON_USE_UNICODE_INTERNALS=0, CYTHON_VECTORCALL=0, CYTHON_AVOID_BORROWED_REFS=1, "
@@ -476,6 +490,9 @@ def check_C39(tier):
             viol4, mods4, cfg4 = e4_exc.explore(rep, prop, seed, tier, tag, cflags=cflags, directives=directives, budget=per_cell * 0.3,
                                                 nmods=2 if tier == "quick" else 4, extra_cfg={"single_cap": 30, "nmulti": 20})
             viol5, mods5, cfg5 = e5_refs.explore(rep, seed, tier, tag, cflags=cflags, budget=per_cell * 0.2, nmods=2 if tier == "quick" else 4, prop=prop)
+            from . import e3_async
+            violb, modsb, cfgb = e3_async.explore(rep, prop, seed, tier, tag, cflags=cflags, directives=directives, budget=per_cell * 0.08,
+                                                  nmods=2 if tier == "quick" else 4, nruns=64 if tier == "quick" else 640)
             try:
                 mods6 = e6_loops.build_mods([{"cell": tag, "cflags": cflags}], tag="")
             except core.HarnessError as e:
@@ -492,6 +509,8 @@ def check_C39(tier):
             found.append((c["cell"], "E4", i, v))
         for i, v in viol5:
             found.append((c["cell"], "E5", i, v))
+        for i, v in violb:
+            found.append((c["cell"], "E3b", i, v))
         if mods6:
             cfg6 = {"modules": mods6, "cases_per_run": 200, "case_timeout_s": 120}
             for i, r in core.run_forked(e6_loops.one_run, prop, seed, range(160 if tier == "quick" else 1600), cfg6, deadline=time.time() + per_cell * 0.2):
@@ -600,6 +619,11 @@ def check_C39(tier):
                 also_baseline = _baseline_e3(v)
             elif eng == "E4" and v.get("func") is not None:
                 also_baseline = _baseline_e4(v)
+            elif eng == "E3b" and v.get("scenario") is not None:
+                name = "wl23a_39base_" + core.digest(v["src"])[:10]
+                so = build.build_ext(name, v["src"], ".py")
+                st, r = core.run_one_forked(e3_async.run_single, {"name": name, "src": v["src"], "so": so}, v["scenario"], timeout=60)
+                also_baseline = st == "crash" or (st == "ok" and r is not None)
             elif eng == "E6" and v.get("case") is not None:
                 base = e6_loops.build_mods([{"cell": "default", "cflags": ()}], tag="c39base")
                 st, r = core.run_one_forked(e6_loops.run_single, base, "default", v["case"], timeout=60)
